@@ -13,7 +13,7 @@ import (
 func specGen(p *Program, u *Universe) *Gen {
 	g := &Gen{prog: p, u: u, name: "spec",
 		shared: &shared{declared: map[string]bool{}, ordinals: map[string]int{}, assumed: map[string]bool{},
-			inlined: map[string]bool{}, usedSpecFuncs: map[string]bool{}, uncontracted: map[string]bool{}, external: map[string]bool{}},
+			inlined: map[string]bool{}, usedSpecFuncs: map[string]bool{}, uncontracted: map[string]bool{}, external: map[string]bool{}, usedClauses: map[string]bool{}},
 		params: map[string]TV{}}
 	u.compSort[TopKey] = "Int"
 	g.entry = g.baseState()
@@ -99,6 +99,13 @@ func SpecPrelude(p *Program, u *Universe) (text string, axiomNames []string, err
 		t := g.evalBool(env, ax.Expr, ax.Src)
 		fmt.Fprintf(&b, "(assert %s) ; axiom %s\n", t, ax.Label)
 		axiomNames = append(axiomNames, ax.Label)
+	}
+	// lemmas are proved separately on every run (LemmaObligations); for the
+	// obligations of functions they are available as facts
+	for _, l := range db.Lemmas {
+		env := g.specEnv(db.ClausePkg[l])
+		t := g.evalBool(env, l.Expr, l.Src)
+		fmt.Fprintf(&b, "(assert %s) ; lemma %s\n", t, l.Label)
 	}
 	// declarations made while evaluating (e.g. constant globals)
 	var pre strings.Builder
